@@ -30,7 +30,7 @@ man = {
    "kind_free_text": "Hypothesis 6.168 generated-input search (plus complete enumeration of small finite sub-domains) against explicit oracles, collect-classify-shrink with known-findings file; ./check <id> quick|thorough"},
  ],
  "checks": [],
- "notes": "All checks: exit 0 held / exit 1 + VIOLATION line / exit 2 harness error. VERIF_SEED seeds every generator. known_findings.json lists open and fixed genuine defects with witnesses; seeded/ holds 179 independently written breaking changes (178 reported by their check at seeds 1-5, one neutralised by a later repair), benign/ holds 30 independently written behaviour-preserving rewrites and 30 independently written legitimate behaviour changes on which every check stays quiet after three oracle over-reaches they exposed were corrected (see DESIGN.md 7.5, 7.5b).",
+ "notes": "All checks: exit 0 held / exit 1 + VIOLATION line / exit 2 harness error. VERIF_SEED seeds every generator. known_findings.json lists open and fixed genuine defects with witnesses; seeded/ holds 179 independently written breaking changes (175 reported by their check, four neutralised by later repairs of the defect they relied on), benign/ holds 90 independently written behaviour-preserving rewrites, legitimate behaviour changes and differently-made free choices on which every check stays quiet after the five oracle over-reaches they exposed were corrected (see DESIGN.md 7.5, 7.5b).",
  "not_applicable": [],
 }
 for pid in ids:
